@@ -21,8 +21,8 @@ fn seed() -> u64 {
 /// Watchdog: a hang is never a violation. Generous bounds; exit 2.
 fn watchdog(tier: Tier) {
     let secs = 60 + std::env::var("VERIF_WATCHDOG_S").ok().and_then(|s| s.parse().ok()).unwrap_or(match tier {
-        Tier::Quick => 1800u64,
-        Tier::Thorough => 6 * 3600,
+        Tier::Quick => 900u64,
+        Tier::Thorough => 3 * 3600,
     });
     std::thread::spawn(move || {
         std::thread::sleep(std::time::Duration::from_secs(secs));
@@ -51,8 +51,8 @@ fn real_main() {
             let id = args[2].clone();
             let tier = tier_of(args.get(3));
             let limit = std::env::var("VERIF_WATCHDOG_S").ok().and_then(|s| s.parse().ok()).unwrap_or(match tier {
-                Tier::Quick => 1800u64,
-                Tier::Thorough => 6 * 3600,
+                Tier::Quick => 900u64,
+                Tier::Thorough => 3 * 3600,
             });
             let exe = std::env::current_exe().expect("current_exe");
             let mut child = match Command::new(&exe).args(["check-inner", &id, tier.name()]).spawn() {
